@@ -12,7 +12,7 @@ use vcore::rt::{self, digest_str, esc, Acc, Args, Report};
 use vcore::sgr::{self, MColor, MStyle, ANSI_COLORS};
 use vcore::vt;
 
-const RULE: &str = "Cases: (fg, bg) over all 17 x 17 pairs (None + 16 palette colours) x data (empty, plain text, escape-rich G-STREAM data up to a few KiB, printable runs of 64..200 KiB) x inner-writer plan: accept everything; accept only a prefix of the data (every prefix length for short data); fail with Interrupted/WouldBlock/Other at the k-th inner write, k = 1..=4; through ansi::write_colored and WinconStream::write_colored on Vec<u8>, File, &mut dyn Write, Box<dyn Write>. Oracle: output = P . data[..n] . S where P consists solely of SGR sequences that set exactly (fg, bg) from the default state, S solely of SGR sequences restoring the default state, both empty when no colour is given; return value n = data bytes accepted; strip(output) == strip(data[..n]); on an injected error the call returns Err of that kind and what was emitted is a prefix of the full framing. Non-trivial = at least one colour and non-empty data (distinct by case).";
+const RULE: &str = "Cases: (fg, bg) over all 17 x 17 pairs (None + 16 palette colours) x data (empty, plain text, escape-rich G-STREAM data up to a few KiB, printable runs of 64..200 KiB) x inner-writer plan: accept everything; accept only a prefix of the data (every prefix length for short data); fail with Interrupted/WouldBlock/Other at the k-th inner write, k = 1..=4; through ansi::write_colored and WinconStream::write_colored on Vec<u8>, File, &mut dyn Write, Box<dyn Write>. Oracle: output = P . data[..n] . S where P consists solely of SGR sequences that set exactly (fg, bg) from the default state, S solely of SGR sequences restoring the default state, both empty when no colour is given; return value n = data bytes accepted; strip(output) == strip(data[..n]); on an injected error the call returns Err of that kind and the visible text of what was emitted is a prefix of the data's. Non-trivial = at least one colour and non-empty data (distinct by case).";
 
 #[derive(Clone, Copy, Debug, Serialize, Deserialize, PartialEq)]
 enum Plan {
@@ -170,8 +170,13 @@ fn check(case: &Case) -> Result<bool, String> {
             let may_be_retried = kind_of(kind) == ErrorKind::Interrupted;
             match &res {
                 Err(e) if e.kind() == kind_of(kind) => {
-                    if !(output.len() <= full.len() && full[..output.len()] == output[..]) {
-                        return Err(format!("after the failure the writer holds {} which is not a prefix of {}", esc(&output), esc(&full)));
+                    // What exactly has reached the writer when a write failed is not part of the
+                    // property (an implementation may stop at once, or still try to emit the reset);
+                    // but nothing other than codes and a prefix of the data may have been written
+                    let seen = anstream::adapter::strip_bytes(&output).into_vec();
+                    let all = anstream::adapter::strip_bytes(&data).into_vec();
+                    if !(seen.len() <= all.len() && all[..seen.len()] == seen[..]) {
+                        return Err(format!("after the failure the writer holds {} whose visible text is not a prefix of the data's {}", esc(&output), esc(&data)));
                     }
                     return Ok(coloured && !data.is_empty());
                 }
